@@ -19,7 +19,7 @@ REQUIRED = ["Angle.__init__", "Angle.reduce_deg", "Angle.reduce_dms", "Angle.dms
             "Angle.__rmod__", "Angle.__rpow__"]
 THEOREMS = ["C03_reduce_deg_ideal", "C03_reduction_spec", "C03_construct_ideal", "C03_sexagesimal_ideal",
             "C03_operators_ideal", "C03_division_by_zero_ideal", "C03_unary_compare_ideal",
-            "C03_views_ideal", "C03_grid_b64", "C03_reduce_deg_b64"]
+            "C03_views_ideal", "C03_grid_b64", "C03_reduce_deg_b64", "C03_construct_b64", "C03_to_positive_b64"]
 PROOF_TIMEOUT = {"quick": 1500, "thorough": 3000}
 EXHAUSTIVE = False
 MANIFEST = {
@@ -42,12 +42,12 @@ EXPLANATION = ("The Angle model regenerated from /repo is read (a) over the real
                "formulas (theorems *_ideal; says nothing about rounding), and (b) in binary64, where range, sign and "
                "exact agreement with the rational reduction are checked by the Coq kernel on an explicit finite "
                "boundary grid (C03_grid_b64).  reduce_deg is additionally proved exact for EVERY finite float "
-               "(C03_reduce_deg_b64, Flocq bridge); to_positive / dms2deg / set_ra for all floats are covered by the grid and the search oracle.")
+               "(C03_reduce_deg_b64, Flocq bridge), and so are Angle(x) and to_positive (C03_construct_b64, C03_to_positive_b64); dms2deg / set_ra for all floats are covered by the grid and the search oracle.")
 CLAUSES = {
     "reduce_deg(x) = sign(x)*(|x| - 360*floor(|x|/360)), strictly inside (-360,360), sign of x, congruent mod 360, unique such value":
         "proved [ideal, all real x and all ints: C03_reduce_deg_ideal + C03_reduction_spec]; proved [B64, FINITE grid: k*360 +- 0..2 ulp and k*360 +- 1 as int for |k|<=40, denormals, +-1 ulp around 0, 1e15-magnitude, ints to 1e15: exact equality with the rational reduction, C03_grid_b64]; proved [B64, EVERY finite float: C03_reduce_deg_b64 - the returned float is finite and its real value is exactly red360 of the value of x, hence |.| < 360 and sign kept; Flocq-based lib/B64Verified.v, contributed by the C11 worker]",
     "Angle(x), Angle(x, radians=True), Angle(x, ra=True), 1-tuple/1-list, copy, no argument":
-        "proved [ideal, all real x / ints: C03_construct_ideal]; B64: grid (25 h RA etc.) + search",
+        "proved [ideal, all real x / ints: C03_construct_ideal]; Angle(x) for a float x: proved [B64, EVERY finite float: C03_construct_b64 - stored value = red360(x) exactly, strictly inside (-360,360), sign of x]; other forms B64: grid (25 h RA etc.) + search",
     "sexagesimal input: reduce_dms is the explicit branch function of |d|,|m|,|s| with sign -1 iff any piece negative":
         "proved [ideal, ALL real pieces incl. fractional/overflowing, 64 branches: C03_sexagesimal_ideal part 1]",
     "sexagesimal value = +-(|d|+|m|/60+|s|/3600) reduced, negative iff any piece negative (incl. (0,-m,s))":
@@ -64,15 +64,15 @@ CLAUSES = {
         "proved [ideal: C03_division_by_zero_ideal]; searched",
     "** with negative base and fractional exponent is complex -> TypeError (not a violation)": "searched (accepted outcome)",
     "unary -, abs, round(n); comparisons = comparisons of the values, == within the left operand's tolerance": "proved [ideal: C03_unary_compare_ideal]; searched",
-    "to_positive in [0,360), congruent": "proved [ideal, all stored values in (-360,360): C03_views_ideal]; proved [B64, grid incl. -1e-20, -5e-324, -2^-45, -359.99999999999994]; searched",
+    "to_positive in [0,360), congruent": "proved [ideal, all stored values in (-360,360): C03_views_ideal]; proved [B64, EVERY finite stored value in (-360,360): C03_to_positive_b64 - result in [0,360), = RN(360+d) (one rounding, error <= 2^-45 deg) or 0.0 when that rounds to 360.0 (only for -2^-45 <= d < 0, e.g. -1e-20)]; grid + searched",
     "rad = deg*pi/180, get_ra = deg/15, float(a) = a()": "proved [ideal: C03_views_ideal]; searched",
-    "binary64 rounding of the arithmetic (1e-9 degree scaled with magnitude) for all floats": "reduce_deg itself: proved exact for every finite float (C03_reduce_deg_b64); the single rounding of a op b, to_positive, dms2deg and set_ra for all floats: unproved (grid + searched)",
+    "binary64 rounding of the arithmetic (1e-9 degree scaled with magnitude) for all floats": "reduce_deg itself: proved exact for every finite float (C03_reduce_deg_b64); to_positive and Angle(x): proved for every finite float (C03_to_positive_b64, C03_construct_b64); the single rounding of a op b, dms2deg and set_ra for all floats: unproved (grid + searched)",
 }
 
 
 def proof_files(tier):
     return ["C03_defs.v", "C03_tac.v", "C03_reduce.v", "C03_construct.v", "C03_forms.v", "C03_dms.v", "C03_ops.v",
-            "C03_grid.v", "C03_reduce_b64.v", "C03.v"]
+            "C03_grid.v", "C03_reduce_b64.v", "C03_b64.v", "C03.v"]
 
 
 # ----------------------------------------------------------------------------------------------
